@@ -1244,6 +1244,9 @@ class BaseGateway:
 
 
 class WorkerGateway(BaseGateway):
+    # set by serve() for the main_thread_only execmodel
+    _executetask_complete: Event | None = None
+
     def _local_schedulexec(self, channel: Channel, sourcetask: bytes) -> None:
         if self._execpool.execmodel.backend == "main_thread_only":
             assert self._executetask_complete is not None
@@ -1313,6 +1316,20 @@ class WorkerGateway(BaseGateway):
         item: tuple[Channel, tuple[str, str | None, str | None, dict[str, object]]],
     ) -> None:
         try:
+            self._executetask(item)
+        finally:
+            if self._executetask_complete is not None:
+                # Indicate that this task has finished executing (whether
+                # it returned, raised or was interrupted), meaning that
+                # there is no possibility of it triggering a deadlock
+                # for the next spawn call.
+                self._executetask_complete.set()
+
+    def _executetask(
+        self,
+        item: tuple[Channel, tuple[str, str | None, str | None, dict[str, object]]],
+    ) -> None:
+        try:
             channel, (source, file_name, call_name, kwargs) = item
             loc: dict[str, Any] = {"channel": channel, "__name__": "__channelexec__"}
             self._trace(f"execution starts[{channel.id}]: {repr(source)[:50]}")
@@ -1340,11 +1357,6 @@ class WorkerGateway(BaseGateway):
                 channel.close(errortext)
                 return
         channel.close()
-        if self._executetask_complete is not None:
-            # Indicate that this task has finished executing, meaning
-            # that there is no possibility of it triggering a deadlock
-            # for the next spawn call.
-            self._executetask_complete.set()
 
 
 #
